@@ -152,6 +152,11 @@ func resyncDir(root string, epoch uint64) {
 	fst.Close()
 }
 
+func fileExists(w *ss.World, i int) bool {
+	_, err := w.FST.GetBytes(ss.Addr(i))
+	return err == nil
+}
+
 func writecacheNonEmpty(root string) bool {
 	n := 0
 	filepath.Walk(filepath.Join(root, "wc"), func(p string, info os.FileInfo, err error) error {
@@ -189,7 +194,7 @@ type result struct {
 	Epochs  []uint64
 }
 
-func historyScenario(wc bool, depth int) sched.Scenario {
+func historyScenario(wc bool, depth int, prefix ...int) sched.Scenario {
 	body := func(s *sched.S) any {
 		root, err := os.MkdirTemp("/dev/shm", "verif-c09-")
 		if err != nil {
@@ -204,6 +209,12 @@ func historyScenario(wc bool, depth int) sched.Scenario {
 		}
 		x := &world{s: s, w: w, root: root, wc: wc, m: res.M, mech: "sequential-history"}
 		defer func() { x.w.Close() }()
+		for _, k := range prefix {
+			o := alphabet[k]
+			res.History = append(res.History, o.Name)
+			o.Do(x)
+			x.observe(o.Name)
+		}
 		for step := 0; step < depth; step++ {
 			k := s.Choose(len(alphabet)+1, sched.Fault, fmt.Sprintf("op%d", step))
 			if k == 0 {
@@ -228,7 +239,11 @@ func historyScenario(wc bool, depth int) sched.Scenario {
 		x.observe("final-Resync")
 		return res
 	}
-	return sched.Scenario{Name: fmt.Sprintf("histories<=%d write-cache=%v", depth, wc),
+	name := fmt.Sprintf("histories<=%d write-cache=%v", depth, wc)
+	if len(prefix) > 0 {
+		name += fmt.Sprintf(" after prefix %v", prefix)
+	}
+	return sched.Scenario{Name: name,
 		Opt:  sched.Options{FaultBound: depth, FreeBound: -1, MaxSteps: 12000, Setup: func(s *sched.S) { s.TimerFires = 2 }},
 		Body: body, Check: checkRes, Outcome: func(x *sched.Exec) string {
 			res, _ := x.Result.(*result)
@@ -270,12 +285,16 @@ func raceScenario(removal string, pre int) sched.Scenario {
 		if err != nil {
 			panic(err)
 		}
-		x := &world{s: s, w: w, root: root, wc: true, m: res.M, mech: "removal-concurrent-with-background-flush"}
+		x := &world{s: s, w: w, root: root, wc: true, m: res.M, mech: "removal-concurrent-with-background-flush:blob-written-before-the-removal-returned"}
 		defer func() { x.w.Close() }()
 		blobWrites := 0
+		removalReturned := false
 		w.OnStep = func(l string) {
 			if l == "blob.Put" || l == "blob.PutBatch" {
 				blobWrites++
+			}
+			if (l == "blob.Put.done" || l == "blob.PutBatch.done") && removalReturned {
+				x.mech = "blob-written-by-the-flusher-after-the-removal-returned"
 			}
 		}
 		done := false
@@ -284,6 +303,7 @@ func raceScenario(removal string, pre int) sched.Scenario {
 			s.Block("wait for the flusher to reach the blobstor", func() bool { return blobWrites > 0 || s.TimerFires <= 0 })
 			if removal == "drop" {
 				x.drop()
+				removalReturned = true
 			} else {
 				x.tomb()
 				x.observe("PutTombstone")
@@ -291,6 +311,9 @@ func raceScenario(removal string, pre int) sched.Scenario {
 				for i := 0; i < 4; i++ {
 					x.epoch()
 					x.w.Sh.VerifSSGCPass()
+					if !fileExists(x.w, objR) {
+						removalReturned = true // GC has physically removed the object
+					}
 				}
 			}
 			done = true
@@ -328,6 +351,8 @@ func main() {
 	scs := []sched.Scenario{
 		raceScenario("drop", pre), raceScenario("tombstone", pre),
 		historyScenario(true, depth), historyScenario(false, depth),
+		// the object is in the blobstor AND put again into the write-cache (Put, Flush, Put), then anything
+		historyScenario(true, depth-1, 0, 5, 0),
 	}
 	r.Rule(fmt.Sprintf("(A) every history of <=%d operations over %d operations x write-cache on/off followed by a closing resync; (B) all schedules with <=%d preemptions of put; flusher || drop / tombstone+expiry+GC; then resync and restart. Monitor on every observation of Get(R); non-trivial = distinct (removal kind, removal observed, fresh upload) outcome classes", depth, len(alphabet), pre))
 	r.Assume("resync is meta.DB.ResyncFromBlobstor run on the stopped shard as neofs-lancet does (write-cache content is not part of it)", "atomics are not scheduling points")
